@@ -8,7 +8,8 @@ Driver commands of property C18 (core Lean only).
             "x" when there is no merged header
     inputs  per input (separated by "/"): how it ends ("e" = io.EOF, "f<n>" = error n) and the records it delivers,
             ";"-separated, each  <name in hex>:<ref>:<pos>:<mate>:<matepos>   (ref/mate -1 = nil)
-  answer: "<input>.<index>:<ref>:<mate>,…|<eof | err:n | more>"  or  "newerr:eof" / "newerr:mismatch"
+  answer: "<input>.<index>:<ref>:<mate>,…|<eof | err:n | more>|<a>,<b>"  or  "newerr:eof" / "newerr:mismatch"
+          (a, b: what the next two calls of Read return after the final error: eof | err:n | rec)
 -/
 import Hts.Drv.Util
 import Hts.Model.Merger
@@ -75,6 +76,10 @@ def showFin : Option Term → String
   | some .eof => "eof"
   | some (.err e) => s!"err:{e}"
 
+def showAgain : Out → String
+  | .got _ _ => "rec"
+  | .fin t => showFin (some t)
+
 def zipInputs : List SortOrder → List Src → List Input
   | so :: sos, s :: ss => { so := so, src := s } :: zipInputs sos ss
   | _, _ => []
@@ -90,7 +95,9 @@ def merge (orders less links inputs : String) : Option String := do
   | .error .sortOrderMismatch => some "newerr:mismatch"
   | .ok m =>
     let (out, fin) := m.readAll scanHeap
-    some s!"{showOut out}|{showFin fin}"
+    let a := (m.advance scanHeap (m.size + 1)).read scanHeap
+    let b := a.2.read scanHeap
+    some s!"{showOut out}|{showFin fin}|{showAgain a.1},{showAgain b.1}"
 
 def handle (cmd : String) (args : List String) : Option String :=
   match cmd, args with
